@@ -108,4 +108,11 @@ def run(ctx):
         res.count("loads", len(rq))
         res.count("handover_safe", sum(1 for m in model if m.split("\t")[2:3] == ["-"]))
         res.count("handover_unsafe", sum(1 for m in model if m.split("\t")[2:3] == ["FMT"]))
+        # evidence for the one assumption of C03_mt_eq_st_given_handover (model side only, never a violation): on how many
+        # hand-over-safe bodies do the per-chunk operations, one after the other, equal the whole body's operations
+        lexrq = ["handoverlex " + r.split(" ", 1)[1] for r in rq if r.startswith("vcdmt ")]
+        lex = [m.split("\t")[0] for m in ctx.model(lexrq, tag="model_lex")]
+        res.count("handover_lexical_holds_on_safe_bodies", sum(1 for l in lex if l == "safe=1;lex=1"))
+        res.count("handover_lexical_fails_on_safe_bodies", sum(1 for l in lex if l == "safe=1;lex=0"))
+        res.count("handover_lexical_not_applicable_or_unsafe", sum(1 for l in lex if not l.startswith("safe=1;lex=") or l.endswith("na")))
     return core.finish(res, proof, rule=RULE)
